@@ -19,6 +19,9 @@ type c18Case struct {
 	Reg   string      `json:"reg"`   // vi register
 	K     []sess.Step `json:"k"`     // the recorded keys, one token per step
 	// an earlier, empty recording on the same shell, then keys typed before the judged recording
+	// the macro is recorded in one call (accepted with RET) and replayed in the next call of the
+	// same Shell; session A types K in both calls
+	Across   bool        `json:"across,omitempty"`
 	Multi    bool        `json:"multi,omitempty"` // AcceptMultiline set: RET on a line ending with a backslash inserts a newline
 	EmptyRec bool        `json:"empty_rec,omitempty"`
 	Pre      []sess.Step `json:"pre,omitempty"`
@@ -49,6 +52,9 @@ func c18Gen(r *rand.Rand, tier string, idx int) any {
 	c.Mode = c.Style
 	c.Start = pick(r, []string{"", "hello world", "one two three four", "a(b)c 'q' end", "say \"hello\" and \"world\" now (x) 'y z' end"})
 	c.Multi = r.Intn(4) == 0
+	if !c.Multi && r.Intn(6) == 0 {
+		c.Across = true
+	}
 	if r.Intn(5) == 0 {
 		c.EmptyRec = true
 		for i := r.Intn(3); i > 0; i-- {
@@ -173,6 +179,34 @@ func c18Session(env *fw.Env, c *c18Case, replay bool) (*sess.Result, []sess.Step
 		}
 	}
 	plan = append(plan, c.Pre...)
+	if c.Across {
+		// first call: K typed (A) or recorded (B), then accepted; second call: K typed or replayed
+		var second []sess.Step
+		switch {
+		case !replay:
+			plan = append(plan, c.K...)
+			second = append(second, c.K...)
+		case c.Style == "emacs":
+			add("\x18(", "start-record")
+			plan = append(plan, c.K...)
+			add("\x18)", "stop-record")
+			second = append(second, sess.Step{W: "\x18e", Tag: "replay"})
+		default:
+			add("q", "start-record")
+			add(c.Reg, "arg")
+			plan = append(plan, c.K...)
+			add("q", "stop-record")
+			second = append(second, sess.Step{W: "\x1b", Tag: "esc"}, sess.Step{W: "@", Tag: "replay"}, sess.Step{W: c.Reg, Tag: "arg"})
+		}
+		if !replay && c.Style == "vi" {
+			second = append([]sess.Step{{W: "\x1b", Tag: "esc"}}, second...)
+		}
+		if r1 := s.Call(plan, retExit); !r1.Returned {
+			return r1, plan
+		}
+		res := s.Call(second, steps("\r"))
+		return res, second
+	}
 	if !replay {
 		plan = append(plan, c.K...)
 		plan = append(plan, c.K...)
@@ -201,7 +235,7 @@ func c18Run(env *fw.Env, raw json.RawMessage) fw.Outcome {
 	var c c18Case
 	unmarshal(raw, &c)
 	var o fw.Out
-	ctx := fmt.Sprintf("style=%s multiline=%v start=%q reg=%q empty-recording-first=%v pre=%v K=%v", c.Style, c.Multi, c.Start, c.Reg, c.EmptyRec, qsteps(c.Pre), qsteps(c.K))
+	ctx := fmt.Sprintf("style=%s across-calls=%v multiline=%v start=%q reg=%q empty-recording-first=%v pre=%v K=%v", c.Style, c.Across, c.Multi, c.Start, c.Reg, c.EmptyRec, qsteps(c.Pre), qsteps(c.K))
 	resA, planA := c18Session(env, &c, false)
 	if !stdFailures(&o, resA, ctx+" session=retype") {
 		o.O.Sample = map[string]any{"ctx": ctx}
@@ -259,6 +293,10 @@ func c18Run(env *fw.Env, raw json.RawMessage) fw.Outcome {
 		pre = "|after-an-empty-recording"
 		o.Add("cases_after_an_empty_recording", 1)
 	}
+	if c.Across {
+		pre += "|replayed-in-the-next-call"
+		o.Add("cases_replayed_in_the_next_call", 1)
+	}
 	o.Cover(c.Style + "|" + strings.Join(ks, "+") + fmt.Sprintf("|len%d", min(len(c.K), 6)) + pre)
 	if fa != fb {
 		o.Viol("replay-differs-from-retyping|"+c.Style+"|"+strings.Join(ks, "+"), ctx+fmt.Sprintf("\nretyped twice -> %q\nrecorded then replayed -> %q", fa, fb))
@@ -280,7 +318,7 @@ func init() {
 		ID:        "C18",
 		Level:     "exploration",
 		NeedsTerm: true,
-		Rule: "differential pairs of sessions: A = start text, then the key script K typed twice; B = start text, start recording, K, stop recording, replay (Emacs: C-x ( K C-x ) C-x e; Vi: q<r> K q @<r> for 10 registers, K starting and ending in command mode, ESC in its own read). K = 1-12 tokens: printable text incl. quotes, backslashes and text that looks like escapes (\\e, \\C-a), control keys, ESC-prefixed keys, CSI arrows/Home/End/Delete, quoted-insert + key, digit arguments, Vi commands with counts and argument keys, operators with text objects and surround characters (di\" da( yi'), named registers; one case in four has AcceptMultiline set and K may contain a Return that is refused (a line ending with a backslash: a newline is inserted and K goes on); one case in five first makes an empty recording on the same shell and types a few keys; oracle: the final buffer texts of A and B are equal. " +
+		Rule: "differential pairs of sessions: A = start text, then the key script K typed twice; B = start text, start recording, K, stop recording, replay (Emacs: C-x ( K C-x ) C-x e; Vi: q<r> K q @<r> for 10 registers, K starting and ending in command mode, ESC in its own read). K = 1-12 tokens: printable text incl. quotes, backslashes and text that looks like escapes (\\e, \\C-a), control keys, ESC-prefixed keys, CSI arrows/Home/End/Delete, quoted-insert + key, digit arguments, Vi commands with counts and argument keys, operators with text objects and surround characters (di\" da( yi'), named registers; one case in four has AcceptMultiline set and K may contain a Return that is refused (a line ending with a backslash: a newline is inserted and K goes on); one case in six records the macro in one call (accepted with RET) and replays it in the next call of the same Shell (session A types K in both calls); one case in five first makes an empty recording on the same shell and types a few keys; oracle: the final buffer texts of A and B are equal. " +
 			"distinct non-trivial = distinct (style, set of key kinds in K, length class) tuples",
 		Assumptions: []string{"macro keys are ASCII (non-ASCII runes in macros are truncated to bytes by the key queue: not exercised)"},
 		N: func(tier string) int {
